@@ -401,3 +401,56 @@ Proof.
       destruct (Hnamed i o Hi Ho) as [Eo Hd]. exists (oindex o). split; [exact Hd|congruence].
   - apply (temps_NoDup cfg Hcfg _ _ _ _ _ HN).
 Qed.
+
+(* ------------------------------------------------------------------ allocating an already allocated copy *)
+(* ir.Program.Clone copies the instructions (identifiers included) and no pass results: a clone of
+   a program that was allocated under configuration A is the value [qA] below.  Allocating it under
+   B satisfies the whole property again, with the chain of the original program. *)
+Lemma wf_from_rename n p : forall d l, wf_from d l p -> wf_from d l (map (rename_instr n) p).
+Proof.
+  induction p as [|i r IH]; intros d l H; cbn [map wf_from]; [exact I|].
+  destruct H as (H1 & H2 & H3). rewrite rename_in_indexes. cbn [rename_instr out_index iout rename_operand oindex].
+  split; [exact H1|]. split; [exact H2|]. apply (IH _ _ H3).
+Qed.
+
+Lemma last_instr_map (f : instr -> instr) p : last_instr (map f p) = option_map f (last_instr p).
+Proof.
+  induction p as [|i r IH]; [reflexivity|]. destruct r as [|i2 r2]; [reflexivity|].
+  cbn [map last_instr] in *. exact IH.
+Qed.
+
+Lemma chain_values_rename x n p : forall k, chain_values x (map (rename_instr n) p) k = chain_values x p k.
+Proof.
+  unfold chain_values. generalize (fun k : Z => if k =? 0 then x else 0).
+  induction p as [|i r IH]; intros env k; cbn [map fold_left]; [reflexivity|].
+  assert (E : chain_step env (rename_instr n i) = chain_step env i).
+  { unfold chain_step. now rewrite op_value_rename. }
+  rewrite E. apply IH.
+Qed.
+
+Theorem allocated_again cfgA cfgB p lst nmap x qA tA :
+  cfg_ok cfgB -> wf_ir p -> last_instr p = Some lst -> consistent nmap p ->
+  allocate cfgA p = Ok (qA, tA) ->
+  exists q temporaries, allocate cfgB qA = Ok (q, temporaries) /\
+    (forall i o, In i q -> In o (operands i) -> oname o <> []) /\
+    (forall i, In i q -> oname (iout i) <> cfg_in cfgB) /\
+    (forall mode, exists m, run_interp mode (cfg_in cfgB) (cfg_out cfgB) x q = Ok m /\
+        value_of m (cfg_out cfgB) = Some (chain_values x p (out_index lst)) /\
+        (mode = Separate -> value_of m (cfg_in cfgB) = Some x)) /\
+    (forall n, In n temporaries <->
+        (exists i o, In i q /\ In o (operands i) /\ oname o = n) /\ n <> cfg_in cfgB /\ n <> cfg_out cfgB) /\
+    NoDup temporaries.
+Proof.
+  intros Hcfg Hwf El Hc HA.
+  destruct (allocate_shape cfgA p lst nmap Hwf El Hc) as (idx & _ & E). rewrite E in HA. injection HA as <- _.
+  set (names := opname (run_naming cfgA p idx lst)).
+  assert (Hwf' : wf_ir (map (rename_instr names) p)) by (apply wf_from_rename, Hwf).
+  assert (El' : last_instr (map (rename_instr names) p) = Some (rename_instr names lst)) by (rewrite last_instr_map, El; reflexivity).
+  assert (Hc' : consistent (ident names) (map (rename_instr names) p)).
+  { intros o Ho. right. unfold all_operands in Ho. apply in_flat_map in Ho as (i & Hi & Ho).
+    apply in_map_iff in Hi as (i0 & <- & _). destruct (operands_rename _ _ _ Ho) as (o0 & _ & ->). reflexivity. }
+  destruct (allocated_exec cfgB _ _ _ x Hcfg Hwf' El' Hc') as (q & t & H1 & H2 & H3 & H4 & H5).
+  exists q, t. split; [exact H1|]. split; [exact H2|]. split; [exact H3|]. split; [|exact H5].
+  intros mode. destruct (H4 mode) as (m & R1 & R2 & R3). exists m. split; [exact R1|]. split; [|exact R3].
+  rewrite R2, chain_values_rename. reflexivity.
+Qed.
